@@ -3,6 +3,7 @@ import TypstyleModel.Proofs.CarriesMarkup
 import TypstyleModel.Proofs.CarriesCall
 import TypstyleModel.Proofs.CarriesRaw
 import TypstyleModel.Proofs.CarriesDot
+import TypstyleModel.Proofs.CarriesMath
 /-! The knot (route M): **for every tree of the covered fragment, the printed family carries exactly
 what the tree prescribes** — code tokens, comments, prose, literals and verbatim text — with no
 per-case certificate: by induction over the fuel of the knot, using the per-construct theorems.
@@ -38,24 +39,6 @@ theorem verbNode_frag_leaf (e : Env) (k : Kind) (t : String) (a : Attrs) (h : k.
   cases k <;> simp [Kind.isFragLeaf, leafTag, Kind.isExpr] at h <;> rfl
 
 /-! ### verbatim emission -/
-
-theorem verb_inner_carries' (e : Env) (k : Kind) (cs : List ANode) (a : Attrs) (hd : a.disabled = true)
-    (hx : k.isExpr = true ∨ k = .destructuring) :
-    Carries (e.verbNode (.inner k cs a)) (specAll (.inner k cs a)) := by
-  have hv : isVerbatimNode k cs a = true := by
-    rcases hx with hx | hx
-    · simp [isVerbatimNode, hd, hx]
-    · simp [isVerbatimNode, hd, hx]
-  refine (Carries.mkText e.wd .verbatim _).congr ?_
-  apply Streams.ext' <;>
-    simp [specAll, specToks, specCmts, specProse, specLit, specVerb, hv, tagS, Pretty.charsOf, ANode.intoText, Pretty.keepOf]
-
-theorem verb_inner_carries (e : Env) (k : Kind) (cs : List ANode) (a : Attrs) (hd : a.disabled = true) (hx : k.isExpr = true) :
-    Carries (e.verbNode (.inner k cs a)) (specAll (.inner k cs a)) := by
-  have hv : isVerbatimNode k cs a = true := by simp [isVerbatimNode, hd, hx]
-  refine (Carries.mkText e.wd .verbatim _).congr ?_
-  apply Streams.ext' <;>
-    simp [specAll, specToks, specCmts, specProse, specLit, specVerb, hv, tagS, Pretty.charsOf, ANode.intoText, Pretty.keepOf]
 
 /-! ### the fragment -/
 
@@ -130,17 +113,62 @@ def listChildrenOK (k : Kind) (cs : List ANode) : Bool :=
         | _ => false)
   | _ => false
 
+/-- Shape of an equation's children after the opening `$`: body, white space, comments, closing `$`. -/
+def eqRestB : List ANode → Bool
+  | [] => false
+  | c :: cs => if cs.isEmpty then c.kind == .dollar
+      else (c.kind == .math || c.kind == .space || isCommentKind c.kind) && eqRestB cs
+
+def eqShapeB (cs : List ANode) : Bool :=
+  match cs with
+  | d0 :: rest => d0.kind == .dollar && eqRestB rest
+  | [] => false
+
+def Kind.isMathFlow : Kind → Bool
+  | .mathAttach | .mathRoot | .mathFrac => true
+  | _ => false
+
 mutual
-/-- The covered fragment (decidable). -/
+/-- The covered fragment (decidable), for contexts that are not in math mode. -/
 def inFrag : ANode → Bool
   | .leaf k t a => ANode.tokensAreLeaves (.leaf k t a) && (!k.isExpr || k.isFragLeaf || (k == .parbreak && !a.disabled) || k == .none_ || k == .auto_) && (!k.isInnerKind || (k == .markup && t == ""))
   | .inner k cs _ =>
-    (k.isFragFlow || k.isFragElem || (k.isFragList && listChildrenOK k cs) || k == .code ||
-      ((k.isFragWrap || k == .markup || k == .args || k == .funcCall || k == .params || k == .destructuring || k == .raw || k == .ref) && listChildrenOK k cs) || k.isFragItem || k == .setRule || k == .closure || k == .forLoop || (k == .binary && binChildrenOK cs) || (k == .fieldAccess && dotChildrenOK cs)) && inFragL cs
+    ((k.isFragFlow || k.isFragElem || (k.isFragList && listChildrenOK k cs) || k == .code ||
+      ((k.isFragWrap || k == .markup || k == .args || k == .funcCall || k == .params || k == .destructuring || k == .raw || k == .ref) && listChildrenOK k cs) || k.isFragItem || k == .setRule || k == .closure || k == .forLoop || (k == .binary && binChildrenOK cs) || (k == .fieldAccess && dotChildrenOK cs)) || (k == .equation && eqShapeB cs)) &&
+      (if k == .equation then inFragEq cs else inFragL cs)
 def inFragL : List ANode → Bool
   | [] => true
   | c :: cs => inFrag c && inFragL cs
+/-- The children of an equation: the body is converted in math mode. -/
+def inFragEq : List ANode → Bool
+  | [] => true
+  | c :: cs => (if c.kind == .math then inFragM c else inFrag c) && inFragEq cs
+/-- The covered fragment for math mode. -/
+def inFragM : ANode → Bool
+  | .leaf k t a => ANode.tokensAreLeaves (.leaf k t a) && (!k.isExpr || k.isFragLeaf || (k == .parbreak && !a.disabled) || k == .none_ || k == .auto_) && (!k.isInnerKind || (k == .markup && t == ""))
+  | .inner k cs _ =>
+    (k.isMathFlow || k == .math || (k == .mathPrimes && cs.all (fun c => c.kind == .prime))) && inFragMS false cs
+/-- A sequence of children converted in math mode; the flag: the previous sibling is `#`, so the child is
+converted in code mode. -/
+def inFragMS : Bool → List ANode → Bool
+  | _, [] => true
+  | hh, c :: cs =>
+    (if isExpr c then (if hh then inFrag c else inFragM c)
+     else ANode.tokensAreLeaves c && (c.kind == .space || c.kind == .hash || isCommentKind c.kind || c.kind.isPlainToken || c.kind == .underscore)) &&
+    inFragMS (c.kind == .hash) cs
 end
+
+theorem inFrag_inner_eq (cs : List ANode) (a : Attrs) :
+    inFrag (.inner .equation cs a) = (eqShapeB cs && inFragEq cs) := by
+  simp (config := { decide := true }) [inFrag, Kind.isFragFlow, Kind.isFragElem, Kind.isFragList, Kind.isFragWrap, Kind.isFragItem, listChildrenOK]
+  rfl
+
+theorem inFrag_inner_ne (k : Kind) (cs : List ANode) (a : Attrs) (hk : k ≠ .equation) :
+    inFrag (.inner k cs a) =
+      ((k.isFragFlow || k.isFragElem || (k.isFragList && listChildrenOK k cs) || k == .code ||
+      ((k.isFragWrap || k == .markup || k == .args || k == .funcCall || k == .params || k == .destructuring || k == .raw || k == .ref) && listChildrenOK k cs) || k.isFragItem || k == .setRule || k == .closure || k == .forLoop || (k == .binary && binChildrenOK cs) || (k == .fieldAccess && dotChildrenOK cs)) && inFragL cs) := by
+  have : (k == Kind.equation) = false := by simpa using hk
+  simp only [inFrag, this, Bool.false_and, Bool.or_false, Bool.false_eq_true, ↓reduceIte]
 
 theorem fragKind_inner (k : Kind) (cs : List ANode)
     (h : (k.isFragFlow || k.isFragElem || (k.isFragList && listChildrenOK k cs) || k == .code ||
@@ -152,15 +180,53 @@ theorem inFrag_lex : (n : ANode) → inFrag n = true → ANode.tokensAreLeaves n
   | .leaf k t a, h => by
     simp only [inFrag, Bool.and_eq_true] at h; exact h.1.1
   | .inner k cs a, h => by
-    simp only [inFrag, Bool.and_eq_true] at h
-    simp only [ANode.tokensAreLeaves, Bool.and_eq_true]
-    exact ⟨fragKind_inner k cs h.1, inFragL_lex cs h.2⟩
+    by_cases hk : k = .equation
+    · subst hk
+      rw [inFrag_inner_eq] at h
+      simp only [Bool.and_eq_true] at h
+      simp only [ANode.tokensAreLeaves, Bool.and_eq_true]
+      exact ⟨rfl, inFragEq_lex cs h.2⟩
+    · rw [inFrag_inner_ne k cs a hk] at h
+      simp only [Bool.and_eq_true] at h
+      simp only [ANode.tokensAreLeaves, Bool.and_eq_true]
+      exact ⟨fragKind_inner k cs h.1, inFragL_lex cs h.2⟩
 theorem inFragL_lex : (cs : List ANode) → inFragL cs = true → ANode.tokensAreLeavesL cs = true
   | [], _ => rfl
   | c :: cs, h => by
     simp only [inFragL, Bool.and_eq_true] at h
     simp only [ANode.tokensAreLeavesL, Bool.and_eq_true]
     exact ⟨inFrag_lex c h.1, inFragL_lex cs h.2⟩
+theorem inFragEq_lex : (cs : List ANode) → inFragEq cs = true → ANode.tokensAreLeavesL cs = true
+  | [], _ => rfl
+  | c :: cs, h => by
+    simp only [inFragEq, Bool.and_eq_true] at h
+    simp only [ANode.tokensAreLeavesL, Bool.and_eq_true]
+    refine ⟨?_, inFragEq_lex cs h.2⟩
+    have h1 := h.1
+    split at h1
+    · exact inFragM_lex c h1
+    · exact inFrag_lex c h1
+theorem inFragM_lex : (n : ANode) → inFragM n = true → ANode.tokensAreLeaves n = true
+  | .leaf k t a, h => by
+    simp only [inFragM, Bool.and_eq_true] at h; exact h.1.1
+  | .inner k cs a, h => by
+    simp only [inFragM, Bool.and_eq_true] at h
+    simp only [ANode.tokensAreLeaves, Bool.and_eq_true]
+    refine ⟨?_, inFragMS_lex false cs h.2⟩
+    have h1 := h.1
+    cases k <;> simp_all [Kind.isMathFlow, Kind.isInnerKind]
+theorem inFragMS_lex : (hh : Bool) → (cs : List ANode) → inFragMS hh cs = true → ANode.tokensAreLeavesL cs = true
+  | _, [], _ => rfl
+  | hh, c :: cs, h => by
+    simp only [inFragMS, Bool.and_eq_true] at h
+    simp only [ANode.tokensAreLeavesL, Bool.and_eq_true]
+    refine ⟨?_, inFragMS_lex _ cs h.2⟩
+    have h1 := h.1
+    split at h1
+    · split at h1
+      · exact inFrag_lex c h1
+      · exact inFragM_lex c h1
+    · simp only [Bool.and_eq_true] at h1; exact h1.1
 end
 
 theorem inFragL_mem {cs : List ANode} (h : inFragL cs = true) {c : ANode} (hc : c ∈ cs) : inFrag c = true := by
@@ -178,6 +244,64 @@ theorem inFragL_append (a b : List ANode) : inFragL (a ++ b) = (inFragL a && inF
   | cons x xs ih => simp only [List.cons_append, inFragL, ih, Bool.and_assoc]
 
 abbrev Q : ANode → Prop := fun c => inFrag c = true
+abbrev QM : ANode → Prop := fun c => inFragM c = true
+
+theorem inFragMS_seq (cs : List ANode) : ∀ hh, inFragMS hh cs = true → MathSeqOK Q QM hh cs := by
+  induction cs with
+  | nil => intro _ _; trivial
+  | cons c cs ih =>
+    intro hh h
+    simp only [inFragMS, Bool.and_eq_true] at h
+    have hlexL := inFragMS_lex hh (c :: cs) (by simp only [inFragMS, Bool.and_eq_true]; exact h)
+    simp only [ANode.tokensAreLeavesL, Bool.and_eq_true] at hlexL
+    refine ⟨hlexL.1, ?_, ih _ h.2⟩
+    have h1 := h.1
+    by_cases hx : isExpr c = true
+    · simp only [hx, ↓reduceIte] at h1 ⊢
+      cases hh with
+      | true => simpa using h1
+      | false => simpa using h1
+    · simp only [hx, Bool.false_eq_true, ↓reduceIte, Bool.and_eq_true, Bool.or_eq_true, beq_iff_eq] at h1 ⊢
+      rcases h1.2 with (((h2 | h2) | h2) | h2) | h2
+      · exact Or.inl h2
+      · exact Or.inr (Or.inl h2)
+      · exact Or.inr (Or.inr (Or.inl h2))
+      · exact Or.inr (Or.inr (Or.inr (Or.inl h2)))
+      · exact Or.inr (Or.inr (Or.inr (Or.inr h2)))
+
+theorem inFragM_math_inner (c : ANode) (hk : c.kind = .math) (hq : inFragM c = true) : ∃ mcs a, c = .inner .math mcs a := by
+  cases c with
+  | leaf k t a =>
+    simp only [ANode.kind] at hk; subst hk
+    simp [inFragM, Kind.isInnerKind] at hq
+  | inner k mcs a => simp only [ANode.kind] at hk; subst hk; exact ⟨mcs, a, rfl⟩
+
+theorem eqRest_of (rest : List ANode) : eqRestB rest = true → inFragEq rest = true → EqRest QM rest := by
+  induction rest with
+  | nil => intro h _; simp [eqRestB] at h
+  | cons c cs ih =>
+    intro hs hq
+    simp only [eqRestB] at hs
+    simp only [inFragEq, Bool.and_eq_true] at hq
+    have hlex : ANode.tokensAreLeaves c = true := by
+      have h1 := hq.1
+      split at h1
+      · exact inFragM_lex c h1
+      · exact inFrag_lex c h1
+    refine ⟨hlex, ?_⟩
+    by_cases hnil : cs = []
+    · subst hnil
+      simp only [List.isEmpty_nil, ↓reduceIte, beq_iff_eq] at hs
+      exact Or.inl ⟨rfl, hs⟩
+    · have hne : cs.isEmpty = false := by cases cs <;> simp_all
+      simp only [hne, Bool.false_eq_true, ↓reduceIte, Bool.and_eq_true, Bool.or_eq_true, beq_iff_eq] at hs
+      refine Or.inr ⟨hnil, ?_, ih hs.2 hq.2⟩
+      rcases hs.1 with (hk | hk) | hk
+      · have h1 := hq.1
+        simp only [hk, beq_self_eq_true, ↓reduceIte] at h1
+        exact Or.inl ⟨hk, inFragM_math_inner c hk h1, h1⟩
+      · exact Or.inr (Or.inl hk)
+      · exact Or.inr (Or.inr hk)
 
 theorem dotQ_frag : DotQ Q where
   leaf := by
@@ -185,13 +309,17 @@ theorem dotQ_frag : DotQ Q where
     constructor <;> (intro hk; subst hk; simp [Q, inFrag, Kind.isInnerKind] at h)
   access := by
     intro cs a h _
-    simp only [Q, inFrag, Bool.and_eq_true] at h
+    simp only [Q] at h
+    rw [inFrag_inner_ne _ _ _ (by decide)] at h
+    simp only [Bool.and_eq_true] at h
     have h1 := h.1
     simp [Kind.isFragFlow, Kind.isFragElem, Kind.isFragList, Kind.isFragWrap, Kind.isFragItem] at h1
     exact ⟨h1, inFragL_lex cs h.2, fun c hc => inFragL_mem h.2 hc⟩
   call := by
     intro cs a h _
-    simp only [Q, inFrag, Bool.and_eq_true] at h
+    simp only [Q] at h
+    rw [inFrag_inner_ne _ _ _ (by decide)] at h
+    simp only [Bool.and_eq_true] at h
     have h1 := h.1
     simp [Kind.isFragFlow, Kind.isFragElem, Kind.isFragList, Kind.isFragWrap, Kind.isFragItem] at h1
     simp only [listChildrenOK] at h1
@@ -208,7 +336,9 @@ theorem binQ_frag : BinQ Q where
     simp [Q, inFrag, Kind.isInnerKind] at h
   inner := by
     intro cs a h _
-    simp only [Q, inFrag, Bool.and_eq_true] at h
+    simp only [Q] at h
+    rw [inFrag_inner_ne _ _ _ (by decide)] at h
+    simp only [Bool.and_eq_true] at h
     have h1 := h.1
     simp [Kind.isFragFlow, Kind.isFragElem, Kind.isFragList, Kind.isFragWrap, Kind.isFragItem] at h1
     exact ⟨h1, inFragL_lex cs h.2, fun c hc => inFragL_mem h.2 hc⟩
@@ -220,12 +350,13 @@ theorem elem_carries {σ : Type} (e : Env) (r : Rec) (ctx : Ctx) (hctx : NM ctx)
     Post (flowM e ctx x.children st producer) (fun d => Carries d (specAll x)) := by
   cases x with
   | leaf k t a =>
-    simp only [inFrag, Bool.and_eq_true, Bool.not_eq_true'] at hq
+    (first | rw [inFrag_inner_ne _ _ _ (by decide)] at hq | rw [inFrag_inner_ne _ _ _ (by assumption)] at hq | skip); simp only [inFrag, Bool.and_eq_true, Bool.not_eq_true'] at hq
     simp only [ANode.kind] at hk
     have := hq.2
     cases k <;> simp_all [Kind.isFragElem, Kind.isInnerKind]
   | inner k cs a =>
-    simp only [inFrag, Bool.and_eq_true] at hq
+    have hne : k ≠ .equation := by intro h; subst h; simp [ANode.kind, Kind.isFragElem] at hk
+    (first | rw [inFrag_inner_ne _ _ _ (by decide)] at hq | rw [inFrag_inner_ne _ _ _ (by assumption)] at hq | skip); simp only [inFrag, Bool.and_eq_true] at hq
     simp only [ANode.kind] at hk
     have hv : isVerbatimNode k cs a = false := by cases k <;> simp_all [Kind.isFragElem, isVerbatimNode, Kind.isExpr]
     have hraw : k ≠ .raw := by intro h; rw [h] at hk; cases hk
@@ -289,7 +420,7 @@ theorem args_frag (e : Env) (r : Rec) (hr : RecOK r Q) (ctx : Ctx) (hctx : NM ct
   | leaf k t a => simp only [ANode.kind] at hk; subst hk; simp [inFrag, Kind.isInnerKind] at hq
   | inner k cs a =>
     simp only [ANode.kind] at hk; subst hk
-    simp only [inFrag, Bool.and_eq_true] at hq
+    (first | rw [inFrag_inner_ne _ _ _ (by decide)] at hq | rw [inFrag_inner_ne _ _ _ (by assumption)] at hq | skip); simp only [inFrag, Bool.and_eq_true] at hq
     have hch : listChildrenOK .args cs = true := by
       have h1 := hq.1
       simp [Kind.isFragFlow, Kind.isFragElem, Kind.isFragList, Kind.isFragWrap, Kind.isFragItem] at h1
@@ -307,7 +438,8 @@ theorem args_frag (e : Env) (r : Rec) (hr : RecOK r Q) (ctx : Ctx) (hctx : NM ct
       cases b with
       | leaf _ _ _ => simp [isBlockShape] at hshape
       | inner kb cb ab =>
-        simp only [inFrag, Bool.and_eq_true] at hbq
+        have hne : kb ≠ .equation := by intro h; subst h; simp [isBlockShape] at hshape
+        (first | rw [inFrag_inner_ne _ _ _ (by decide)] at hbq | rw [inFrag_inner_ne _ _ _ (by assumption)] at hbq | skip); simp only [inFrag, Bool.and_eq_true] at hbq
         exact inFragL_mem hbq.2 hc
     unfold convArgs hasParenArgs
     dsimp only
@@ -432,7 +564,8 @@ theorem paramList_frag (e : Env) (r : Rec) (hr : RecOK r Q) (ctx : Ctx) (k : Kin
     (hk : k = .params ∨ k = .destructuring) (hd : k = .destructuring → a.disabled = false) (hq : inFrag (.inner k cs a) = true) :
     (∀ isUnnamed, Post (convParams e r ctx (.inner k cs a) isUnnamed) (fun d => Carries d (specAll (.inner k cs a)))) ∧
     Post (convDestructuring e r ctx (.inner k cs a)) (fun d => Carries d (specAll (.inner k cs a))) := by
-  simp only [inFrag, Bool.and_eq_true] at hq
+  have hne : k ≠ .equation := by rcases hk with rfl | rfl <;> decide
+  (first | rw [inFrag_inner_ne _ _ _ (by decide)] at hq | rw [inFrag_inner_ne _ _ _ (by assumption)] at hq | skip); simp only [inFrag, Bool.and_eq_true] at hq
   have hch : listChildrenOK k cs = true := by
     have h1 := hq.1
     rcases hk with rfl | rfl <;>
@@ -508,7 +641,7 @@ theorem leaf_expr_frag (e : Env) (r : Rec) (ctx : Ctx) (k : Kind) (t : String) (
     (hq : inFrag (.leaf k t a) = true) :
     Post (if (ANode.leaf k t a).attrs.disabled = true then pure (e.verbNode (.leaf k t a)) else convExprImpl e r ctx (.leaf k t a))
       (fun d => Carries d (specAll (.leaf k t a))) := by
-  simp only [inFrag, Bool.and_eq_true, Bool.or_eq_true, Bool.not_eq_true', beq_iff_eq] at hq
+  (first | rw [inFrag_inner_ne _ _ _ (by decide)] at hq | rw [inFrag_inner_ne _ _ _ (by assumption)] at hq | skip); simp only [inFrag, Bool.and_eq_true, Bool.or_eq_true, Bool.not_eq_true', beq_iff_eq] at hq
   rcases hq.1.2 with (((h | h) | h) | h) | h
   · rw [hx] at h; cases h
   · rw [specAll_frag_leaf k t a h, verbNode_frag_leaf e k t a h, convExprImpl_frag_leaf e r ctx k t a h]
@@ -523,14 +656,37 @@ theorem leaf_expr_frag (e : Env) (r : Rec) (ctx : Ctx) (k : Kind) (t : String) (
 
 set_option maxHeartbeats 1600000 in
 /-- One level of the knot: the expression entry point. -/
-theorem convExpr_frag (e : Env) (r : Rec) (hr : RecOK r Q) (ctx : Ctx) (hctx : NM ctx) (n : ANode) (hx : isExpr n = true) (hq : inFrag n = true) :
+theorem convExpr_frag (e : Env) (r : Rec) (hr : RecOK r Q) (hrM : RecOKM r QM) (ctx : Ctx) (hctx : NM ctx) (n : ANode) (hx : isExpr n = true) (hq : inFrag n = true) :
     Post (convExpr e r ctx n) (fun d => Carries d (specAll n)) := by
   unfold convExpr
   refine Post.bind (Q := fun _ => True) (fun _ _ _ _ => trivial) (fun _ _ => ?_)
   cases n with
   | leaf k t a => exact leaf_expr_frag e r ctx k t a hx hq
   | inner k cs a =>
-    simp only [inFrag, Bool.and_eq_true] at hq
+    by_cases heqk : k = .equation
+    · -- an equation: `$`, body in math mode, `$`
+      subst heqk
+      rw [inFrag_inner_eq] at hq
+      simp only [Bool.and_eq_true] at hq
+      split
+      · rename_i hd
+        exact Post.pure (verb_inner_carries e .equation cs a (by simpa [ANode.attrs] using hd) rfl)
+      · rename_i hd
+        have hd' : a.disabled = false := by simpa [ANode.attrs] using hd
+        show Post (convEquation e r ctx _) _
+        cases cs with
+        | nil => simp [eqShapeB] at hq
+        | cons d0 rest =>
+          have hs := hq.1
+          simp only [eqShapeB, Bool.and_eq_true, beq_iff_eq] at hs
+          have hqe := hq.2
+          simp only [inFragEq, Bool.and_eq_true] at hqe
+          have hk0m : (d0.kind == Kind.math) = false := by rw [hs.1]; rfl
+          have hq0 := hqe.1
+          simp only [hk0m, Bool.false_eq_true, ↓reduceIte] at hq0
+          exact convEquation_carries e r hrM ctx d0 rest a hd' (inFrag_lex d0 hq0) hs.1 (eqRest_of rest hs.2 hqe.2)
+    have hne : k ≠ .equation := heqk
+    (first | rw [inFrag_inner_ne _ _ _ (by decide)] at hq | rw [inFrag_inner_ne _ _ _ (by assumption)] at hq | skip); simp only [inFrag, Bool.and_eq_true] at hq
     have hkx : k.isExpr = true := hx
     split
     · rename_i hd
@@ -678,7 +834,8 @@ theorem convExpr_frag (e : Env) (r : Rec) (hr : RecOK r Q) (ctx : Ctx) (hctx : N
               cases b with
               | leaf _ _ _ => simp [isBlockShape] at hch
               | inner kb cb ab =>
-                simp only [inFrag, Bool.and_eq_true] at hqb
+                have hne' : kb ≠ .equation := by intro h; subst h; simp [isBlockShape] at hch
+                (first | rw [inFrag_inner_ne _ _ _ (by decide)] at hqb | rw [inFrag_inner_ne _ _ _ (by assumption)] at hqb | skip); simp only [inFrag, Bool.and_eq_true] at hqb
                 exact inFragL_mem hqb.2 hc
             refine Post.bind (contentBlock_carries e r hr ctx hctx b hch.2 (inFrag_lex b hqb) hbc) (fun d hd => Post.pure ?_)
             simpa [specAllL_cons] using (refMarker_carries e tm am hch.1).app hd
@@ -688,14 +845,14 @@ theorem convExpr_frag (e : Env) (r : Rec) (hr : RecOK r Q) (ctx : Ctx) (hctx : N
       by_cases hfak : k = .fieldAccess
       · subst hfak
         have hq0 : inFrag (.inner .fieldAccess cs a) = true := by
-          simp only [inFrag, Bool.and_eq_true]; exact hq
+          (first | rw [inFrag_inner_ne _ _ _ (by decide)] | skip); simp only [inFrag, Bool.and_eq_true]; exact hq
         show Post (convFieldAccess e r ctx _) _
         exact convFieldAccess_carries e r hr dotQ_frag ctx hctx
           (fun c hc ar hk hqa => args_frag e r hr c hc ar hk hqa) cs a hq0 hd'
       by_cases hbink : k = .binary
       · subst hbink
         have hq0 : inFrag (.inner .binary cs a) = true := by
-          simp only [inFrag, Bool.and_eq_true]; exact hq
+          (first | rw [inFrag_inner_ne _ _ _ (by decide)] | skip); simp only [inFrag, Bool.and_eq_true]; exact hq
         show Post (convBinary e r ctx _) _
         exact convBinary_carries e r hr binQ_frag ctx hctx cs a hq0 hd'
       by_cases hrawk : k = .raw
@@ -783,7 +940,7 @@ theorem convExpr_frag (e : Env) (r : Rec) (hr : RecOK r Q) (ctx : Ctx) (hctx : N
         have hqs := hq.2
         simp only [inFragL, Bool.and_eq_true] at hqs
         have hq0 : inFrag (.inner .funcCall [callee, args] a) = true := by
-          simp only [inFrag, Bool.and_eq_true]; exact hq
+          (first | rw [inFrag_inner_ne _ _ _ (by decide)] | skip); simp only [inFrag, Bool.and_eq_true]; exact hq
         have hlex0 : ANode.tokensAreLeaves (.inner .funcCall [callee, args] a) = true := inFrag_lex _ hq0
         show Post (convFuncCall e r ctx _) _
         unfold convFuncCall firstWhere lastWhere
@@ -932,7 +1089,7 @@ theorem convExpr_frag (e : Env) (r : Rec) (hr : RecOK r Q) (ctx : Ctx) (hctx : N
             · obtain ⟨ccs, ca, rfl, _, hall⟩ := hcode c hc hk
               simp only [ANode.kind, beq_self_eq_true, ↓reduceIte, ANode.children] at hxc
               have hcq := inFragL_mem hq.2 hc
-              simp only [inFrag, Bool.and_eq_true] at hcq
+              (first | rw [inFrag_inner_ne _ _ _ (by decide)] at hcq | rw [inFrag_inner_ne _ _ _ (by assumption)] at hcq | skip); simp only [inFrag, Bool.and_eq_true] at hcq
               refine ⟨inFragL_mem hcq.2 hxc, ?_⟩
               have := List.all_eq_true.mp hall x hxc
               simpa using this
@@ -949,7 +1106,7 @@ theorem convExpr_frag (e : Env) (r : Rec) (hr : RecOK r Q) (ctx : Ctx) (hctx : N
             (NM.withMode _ (by decide)) _ ⟨rfl, rfl, rfl⟩ id (fun _ => rfl) _ Carries.nil sp3 sp4 (flattenCode cs) hnodes
             (fun x hx => no_hash_of isExpr (fun y hy hk => by unfold isExpr at hy; rw [hk] at hy; cases hy) x (hnodes x hx).2)
         · -- parenthesised: the `paren` entry point of the same level
-          exact hr.paren ctx _ hctx rfl hd' (by show inFrag _ = true; simp only [inFrag, Bool.and_eq_true]; exact hq)
+          exact hr.paren ctx _ hctx rfl hd' (by show inFrag _ = true; (first | rw [inFrag_inner_ne _ _ _ (by decide)] | skip); simp only [inFrag, Bool.and_eq_true]; exact hq)
         · -- array
           have hall : ∀ x ∈ cs, inFrag x = true ∧ ((x.kind == .spread || isExpr x) = true ∨ isPassable x = true) := by
             intro x hx
@@ -1035,12 +1192,12 @@ theorem convParenthesized_frag (e : Env) (r : Rec) (hr : RecOK r Q) (ctx : Ctx) 
   cases n with
   | leaf k t a =>
     simp only [ANode.kind] at hk
-    simp only [inFrag, Bool.and_eq_true, Bool.not_eq_true'] at hq
+    (first | rw [inFrag_inner_ne _ _ _ (by decide)] at hq | rw [inFrag_inner_ne _ _ _ (by assumption)] at hq | skip); simp only [inFrag, Bool.and_eq_true, Bool.not_eq_true'] at hq
     rw [hk] at hq; simp [Kind.isInnerKind] at hq
   | inner k cs a =>
     simp only [ANode.kind] at hk
     subst hk
-    simp only [inFrag, Bool.and_eq_true] at hq
+    (first | rw [inFrag_inner_ne _ _ _ (by decide)] at hq | rw [inFrag_inner_ne _ _ _ (by assumption)] at hq | skip); simp only [inFrag, Bool.and_eq_true] at hq
     have hch : listChildrenOK .parenthesized cs = true := by
       have h1 := hq.1
       simp [Kind.isFragFlow, Kind.isFragElem, Kind.isFragList, Kind.isFragWrap, Kind.isFragItem] at h1
@@ -1088,7 +1245,7 @@ theorem convParenthesized_frag (e : Env) (r : Rec) (hr : RecOK r Q) (ctx : Ctx) 
           unfold isPattern isExpr at hy; rw [hk] at hy; simp [Kind.isExpr] at hy) x (hall x hx).2)
 
 /-- One level of the knot: the pattern entry point. -/
-theorem convPattern_frag (e : Env) (r : Rec) (hr : RecOK r Q) (ctx : Ctx) (hctx : NM ctx) (n : ANode)
+theorem convPattern_frag (e : Env) (r : Rec) (hr : RecOK r Q) (hrM : RecOKM r QM) (ctx : Ctx) (hctx : NM ctx) (n : ANode)
     (hp : isPattern n = true) (hq : inFrag n = true) :
     Post (convPattern e r (convExpr e r) (convParenthesized e r) ctx n) (fun d => Carries d (specAll n)) := by
   by_cases hu : n.kind = .underscore
@@ -1126,7 +1283,7 @@ theorem convPattern_frag (e : Env) (r : Rec) (hr : RecOK r Q) (ctx : Ctx) (hctx 
       · exact absurd h hdk
       · exact h
     have hk2 : n.kind ≠ .destructuring := by intro h; unfold isExpr at hx; rw [h] at hx; cases hx
-    have hexpr := convExpr_frag e r hr ctx hctx n hx hq
+    have hexpr := convExpr_frag e r hr hrM ctx hctx n hx hq
     unfold convPattern
     refine Post.bind (Q := fun _ => True) (fun _ _ _ _ => trivial) (fun _ _ => ?_)
     split
@@ -1165,7 +1322,7 @@ theorem convMarkup_frag (e : Env) (r : Rec) (hr : RecOK r Q) (ctx : Ctx) (hctx :
     simpa using Carries.nil.enclose (getDelim_carries _ _ _ _ _) (getDelim_carries _ _ _ _ _)
   | inner k cs a =>
     simp only [ANode.kind] at hk; subst hk
-    simp only [inFrag, Bool.and_eq_true] at hq
+    (first | rw [inFrag_inner_ne _ _ _ (by decide)] at hq | rw [inFrag_inner_ne _ _ _ (by assumption)] at hq | skip); simp only [inFrag, Bool.and_eq_true] at hq
     have hch : listChildrenOK .markup cs = true := by
       have h1 := hq.1
       simp [Kind.isFragFlow, Kind.isFragElem, Kind.isFragList, Kind.isFragWrap, Kind.isFragItem] at h1
@@ -1185,16 +1342,74 @@ theorem convMarkup_frag (e : Env) (r : Rec) (hr : RecOK r Q) (ctx : Ctx) (hctx :
     · exact Or.inr (Or.inr (Or.inr (Or.inl h)))
     · exact Or.inr (Or.inr (Or.inr (Or.inr h)))
 
-/-- **The knot, by induction on the fuel**: at every level, the expression, pattern and parenthesis
-entry points carry what a tree of the fragment prescribes. -/
-theorem knot_frag (e : Env) : ∀ fuel, RecOK (knot e fuel) Q
-  | 0 => ⟨fun _ _ _ _ _ => Post.rejected _, fun _ _ _ _ _ => Post.rejected _, fun _ _ _ _ _ _ => Post.rejected _,
-          fun _ _ _ _ _ _ => Post.rejected _⟩
+/-- One level of the knot: the expression entry point in math mode. -/
+theorem convExprM_frag (e : Env) (r : Rec) (hr : RecOK r Q) (hrM : RecOKM r QM) (ctx : Ctx) (hm : ctx.mode = .math)
+    (n : ANode) (hx : isExpr n = true) (hq : inFragM n = true) :
+    Post (convExpr e r ctx n) (fun d => Carries d (specAll n)) := by
+  unfold convExpr
+  refine Post.bind (Q := fun _ => True) (fun _ _ _ _ => trivial) (fun _ _ => ?_)
+  cases n with
+  | leaf k t a =>
+    have hq' : inFrag (.leaf k t a) = true := by
+      simp only [inFragM] at hq
+      simp only [inFrag]
+      exact hq
+    exact leaf_expr_frag e r ctx k t a hx hq'
+  | inner k cs a =>
+    simp only [inFragM, Bool.and_eq_true] at hq
+    have hkx : k.isExpr = true := hx
+    split
+    · rename_i hd
+      exact Post.pure (verb_inner_carries e k cs a (by simpa [ANode.attrs] using hd) hkx)
+    · rename_i hd
+      have hd' : a.disabled = false := by simpa [ANode.attrs] using hd
+      have hseq := inFragMS_seq cs false hq.2
+      have hlex := inFragMS_lex false cs hq.2
+      have h1 := hq.1
+      by_cases hflow : k.isMathFlow = true
+      · have hv : isVerbatimNode k cs a = false := by cases k <;> simp_all [Kind.isMathFlow, isVerbatimNode]
+        have hraw : k ≠ .raw := by intro h; rw [h] at hflow; cases hflow
+        cases k <;> simp only [Kind.isMathFlow, Bool.false_eq_true] at hflow
+        · show Post (convMathAttach e r ctx _) _
+          unfold convMathAttach
+          exact mathFlow_carries e ctx hm .mathAttach cs a false _ (attachProducer_ok e r hr hrM) hv hraw hlex hseq
+        · show Post (convMathFrac e r ctx _) _
+          unfold convMathFrac
+          exact mathFlow_carries e ctx hm .mathFrac cs a () _ (fracProducer_ok e r hr hrM) hv hraw hlex hseq
+        · show Post (convMathRoot e r ctx _) _
+          unfold convMathRoot
+          exact mathFlow_carries e ctx hm .mathRoot cs a () _ (rootProducer_ok e r hr hrM) hv hraw hlex hseq
+      by_cases hmk : k = .math
+      · subst hmk
+        show Post (r.math ctx _) _
+        exact hrM.math ctx _ hm rfl (by simp only [QM, inFragM, Bool.and_eq_true]; exact hq)
+      · have hpk : k = .mathPrimes := by
+          cases k <;> simp_all [Kind.isMathFlow]
+        subst hpk
+        show Post (convMathPrimes e _) _
+        exact convMathPrimes_carries e cs a hd' hlex
+
+/-- One level of the knot: a math body. -/
+theorem convMath_frag (e : Env) (r : Rec) (hr : RecOK r Q) (hrM : RecOKM r QM) (ctx : Ctx) (hm : ctx.mode = .math)
+    (n : ANode) (hk : n.kind = .math) (hq : inFragM n = true) :
+    Post (convMath e r ctx n) (fun d => Carries d (specAll n)) := by
+  obtain ⟨mcs, a, rfl⟩ := inFragM_math_inner n hk hq
+  simp only [inFragM, Bool.and_eq_true] at hq
+  exact convMath_carries e r hr hrM ctx hm mcs a (inFragMS_seq mcs false hq.2)
+
+/-- **The knot, by induction on the fuel**: at every level, the expression, pattern, parenthesis and markup
+entry points carry what a tree of the fragment prescribes, and so do the expression and math-body entry
+points in math mode for a tree of the math fragment. -/
+theorem knot_frag (e : Env) : ∀ fuel, RecOK (knot e fuel) Q ∧ RecOKM (knot e fuel) QM
+  | 0 => ⟨⟨fun _ _ _ _ _ => Post.rejected _, fun _ _ _ _ _ => Post.rejected _, fun _ _ _ _ _ _ => Post.rejected _,
+          fun _ _ _ _ _ _ => Post.rejected _⟩, ⟨fun _ _ _ _ _ => Post.rejected _, fun _ _ _ _ _ => Post.rejected _⟩⟩
   | fuel+1 => by
     have ih := knot_frag e fuel
-    exact ⟨fun ctx c hn hx hq => convExpr_frag e (knot e fuel) ih ctx hn c hx hq,
-           fun ctx c hn hp hq => convPattern_frag e (knot e fuel) ih ctx hn c hp hq,
-           fun ctx c hn hk hd hq => convParenthesized_frag e (knot e fuel) ih ctx hn c hk hd hq,
-           fun ctx c scope hn hk hq => convMarkup_frag e (knot e fuel) ih ctx hn c scope hk hq⟩
+    exact ⟨⟨fun ctx c hn hx hq => convExpr_frag e (knot e fuel) ih.1 ih.2 ctx hn c hx hq,
+           fun ctx c hn hp hq => convPattern_frag e (knot e fuel) ih.1 ih.2 ctx hn c hp hq,
+           fun ctx c hn hk hd hq => convParenthesized_frag e (knot e fuel) ih.1 ctx hn c hk hd hq,
+           fun ctx c scope hn hk hq => convMarkup_frag e (knot e fuel) ih.1 ctx hn c scope hk hq⟩,
+          ⟨fun ctx c hm hx hq => convExprM_frag e (knot e fuel) ih.1 ih.2 ctx hm c hx hq,
+           fun ctx c hm hk hq => convMath_frag e (knot e fuel) ih.1 ih.2 ctx hm c hk hq⟩⟩
 
 end Typstyle
